@@ -5,6 +5,7 @@ import CssVerif.Lemmas.TokIdentDash
 import CssVerif.Lemmas.TokUriQ
 import CssVerif.Lemmas.TokIdentU
 import CssVerif.Lemmas.TokURange
+import CssVerif.Lemmas.TokNum
 /-!
 # Lexeme separation for all token classes (`Lex2`, `render2`, `expectedAll`)
 -/
@@ -67,6 +68,7 @@ inductive Lex2 where
   | identD (n c : Nat) (cs : Cps)          -- IDENT that starts with one or two hyphens
   | uriQ (u r l : Nat) (w1 : Cps) (q : Nat) (its : List SItem) (w2 : Cps)   -- URI, quoted: url( ws? string ws? )
   | identU (u : Nat) (cs : Cps)            -- IDENT that starts with `u` / `U`
+  | numF (sg ip : Cps) (d : Nat) (ds : Cps)   -- NUMBER with a fraction: sign? digits* `.` digits+
   | urangeI (u h : Nat) (hs : Cps) (h2 : Nat) (hs2 : Cps)   -- UNICODE-RANGE interval `U+0-7F`
 
 def Lex2.text : Lex2 → Cps
@@ -80,6 +82,7 @@ def Lex2.text : Lex2 → Cps
   | .strI q its => q :: flat its ++ [q]
   | .identD n c cs => dashes n ++ c :: cs
   | .identU u cs => u :: cs
+  | .numF sg ip d ds => sg ++ (ip ++ 46 :: d :: ds)
   | .urangeI u h hs h2 hs2 => u :: 43 :: (h :: hs ++ 45 :: h2 :: hs2)
   | .uriQ u r l w1 q its w2 => u :: r :: l :: 40 :: (w1 ++ (q :: (flat its ++ q :: (w2 ++ [41]))))
 
@@ -94,6 +97,7 @@ def Lex2.typ : Lex2 → String
   | .strI _ _ => "STRING"
   | .identD _ _ _ => "IDENT"
   | .identU _ _ => "IDENT"
+  | .numF _ _ _ _ => "NUMBER"
   | .urangeI _ _ _ _ _ => "UNICODE-RANGE"
   | .uriQ _ _ _ _ _ _ _ => "URI"
 
@@ -114,6 +118,7 @@ def Lex2.WF : Lex2 → Prop
   | .strI q its => (q = 34 ∨ q = 39) ∧ ∀ i ∈ its, i.WF q
   | .identD n c cs => (n = 1 ∨ n = 2) ∧ inR nameStart c = true ∧ ∀ x ∈ cs, inR identRest x = true
   | .identU u cs => IsU u ∧ ∀ x ∈ cs, inR identRest x = true
+  | .numF sg ip d ds => IsSign sg ∧ (∀ c ∈ ip, isDigit c = true) ∧ ∀ c ∈ d :: ds, isDigit c = true
   | .urangeI u h hs h2 hs2 => IsU u ∧ (∀ x ∈ h :: hs, inR hexq x = true) ∧ (h :: hs).length ≤ 6 ∧
       (∀ x ∈ h2 :: hs2, inR hexOnly x = true) ∧ (h2 :: hs2).length ≤ 6
   | .uriQ u r l w1 q its w2 => IsU u ∧ IsR r ∧ IsL l ∧ (∀ x ∈ w1, isWsC x = true) ∧ (q = 34 ∨ q = 39) ∧
@@ -290,6 +295,33 @@ theorem lex2_step (doC : Bool) (t : Lex2) (h : t.WF) (stop : Cps) (hs : Sep stop
       · decide
       · exact ne92_of_inR hexOnly (by decide) _ (hh2 _ (by simp))
       · exact ne92_of_inR hexOnly (by decide) _ (hh2 x (List.mem_cons_of_mem _ hx))
+  | numF sg ip d ds =>
+    obtain ⟨hsg, hip, hd⟩ := h
+    obtain ⟨_, hsgc⟩ := isSign_len sg hsg
+    have hne : sg ++ (ip ++ 46 :: d :: ds) ≠ [] := by simp
+    have hchars : ∀ x ∈ sg ++ (ip ++ 46 :: d :: ds), inR numChars x = true := by
+      intro x hx
+      have hdig : ∀ y, isDigit y = true → inR numChars y = true := by
+        intro y hy
+        simp only [isDigit, Bool.and_eq_true, decide_eq_true_eq] at hy
+        simp [inR, numChars]; omega
+      simp only [List.mem_append, List.mem_cons] at hx
+      rcases hx with hx | hx | rfl | rfl | hx
+      · exact hsgc x hx
+      · exact hdig x (hip x hx)
+      · decide
+      · exact hdig _ (hd _ (by simp))
+      · exact hdig x (hd x (List.mem_cons_of_mem _ hx))
+    apply loop_step2 doC fuel (sg ++ (ip ++ 46 :: d :: ds)) stop line col "NUMBER" hne
+    · intro c t e
+      have := hchars c (by rw [e]; simp)
+      exact not_fast_of_ranges numChars (by decide) c this
+    · have := scan_number_frac doC sg ip d ds stop hsg hip hd hs
+      have hl : (sg ++ (ip ++ 46 :: d :: ds)).length = sg.length + (ip.length + (1 + (1 + ds.length))) := by
+        simp only [List.length_append, List.length_cons]; omega
+      rw [hl]
+      simpa [List.append_assoc] using this
+    · exact valueOf_plain _ _ _ (by decide) (by decide)
   | identU u cs =>
     obtain ⟨hu, hcs⟩ := h
     apply loop_step2 doC fuel (u :: cs) stop line col "IDENT" (by simp)
@@ -350,6 +382,18 @@ theorem lex2_head (t : Lex2) (h : t.WF) : ∃ c w, t.text = c :: w ∧ inR lexHe
   | identU u cs =>
     refine ⟨u, cs, rfl, ?_⟩
     rcases h.1 with rfl | rfl <;> decide
+  | numF sg ip d ds =>
+    obtain ⟨hsg, hip, hd⟩ := h
+    have hdig : ∀ y, isDigit y = true → inR lexHeads y = true := by
+      intro y hy
+      simp only [isDigit, Bool.and_eq_true, decide_eq_true_eq] at hy
+      simp [inR, lexHeads]; omega
+    rcases hsg with rfl | rfl | rfl
+    · cases ip with
+      | nil => exact ⟨46, d :: ds, rfl, by decide⟩
+      | cons c t => exact ⟨c, t ++ 46 :: d :: ds, rfl, hdig c (hip c (by simp))⟩
+    · exact ⟨43, ip ++ 46 :: d :: ds, rfl, by decide⟩
+    · exact ⟨45, ip ++ 46 :: d :: ds, rfl, by decide⟩
   | urangeI u h0 hs0 h2 hs2 =>
     refine ⟨u, 43 :: (h0 :: hs0 ++ 45 :: h2 :: hs2), rfl, ?_⟩
     rcases h.1 with rfl | rfl <;> decide
@@ -516,6 +560,6 @@ instance lexWFDecidable (t : Lex) : Decidable t.WF := by
   cases t <;> simp only [Lex.WF] <;> infer_instance
 
 instance lex2WFDecidable (t : Lex2) : Decidable t.WF := by
-  cases t <;> simp only [Lex2.WF, IsU, IsR, IsL] <;> infer_instance
+  cases t <;> simp only [Lex2.WF, IsU, IsR, IsL, IsSign] <;> infer_instance
 
 end CssVerif.Tok
